@@ -105,3 +105,32 @@ package ecs
 //@   ensures  inv: poolInv(p)
 //@   ensures  empty: *epAlive(p) == 0 && p.available == 0 && len(p.entities) == int(p.reserved)
 //@   ensures  none-issued: forall h Entity :: !epIssued(p)[h]
+
+// intPool[cacheID]: the same implicit free list over a growing slice (instance used by the filter cache).
+
+//@ ghost func ipFree(p *intPool[cacheID]) map[uint32]uint32
+//@ ghost func ipRank(p *intPool[cacheID]) map[uint32]uint32
+
+//@ spec func ipIssued(p *intPool[cacheID], i cacheID) bool := uint64(i) < uint64(len(p.pool)) && ipRank(p)[uint32(i)] == 0
+
+//@ pred ipInv(p *intPool[cacheID]) :=
+//@      uint64(len(p.pool)) < 1<<32
+//@   && (forall i uint32 :: uint64(i) < uint64(len(p.pool)) && ipRank(p)[i] == 0 ==> uint32(p.pool[i]) == i)
+//@   && (forall i uint32 :: uint64(i) < uint64(len(p.pool)) && ipRank(p)[i] != 0 ==>
+//@         ipRank(p)[i] <= p.available && ipFree(p)[ipRank(p)[i]-1] == i)
+//@   && (forall k uint32 :: k < p.available ==> uint64(ipFree(p)[k]) < uint64(len(p.pool)) && ipRank(p)[ipFree(p)[k]] == k+1)
+//@   && (forall k uint32 :: 1 <= k && k < p.available ==> uint32(p.pool[ipFree(p)[k]]) == ipFree(p)[k-1])
+//@   && (p.available > 0 ==> uint32(p.next) == ipFree(p)[p.available-1])
+
+//@ func (*intPool[cacheID]).Get
+//@   serves C05
+//@   requires ipInv(p) && uint64(len(p.pool)) < 1<<32 - 1
+//@   ghost    ipRank(p)[uint32(result)] = 0
+//@   ensures  inv: ipInv(p)
+//@   ensures  fresh: !old(ipIssued(p, result)) && ipIssued(p, result)
+//@   ensures  others: forall i cacheID :: i != result ==> ipIssued(p, i) == old(ipIssued(p, i))
+
+//@ func (*intPool[cacheID]).Reset
+//@   serves C05 C16
+//@   ensures  inv: ipInv(p)
+//@   ensures  empty: len(p.pool) == 0 && p.available == 0
